@@ -693,6 +693,8 @@ func TestC24(t *testing.T) {
 	defer r.Finish()
 	r.Rule = "grid + random sweep of both real payment builders (CLN buildDirectClaimRoute, LND buildDirectClaimPaymentRequest, through the verif exports): invoice destination = channel peer / third party / self, amounts 1 msat..2^63, final CLTV -1..2^32, channel ids in both spellings and malformed, limits {0,32}; oracle: CLN route has exactly one hop over the swap channel (x spelling) to the invoice payee for the invoice amount; LND request names exactly the swap channel, MaxParts 1, the invoice itself and no amount override, and is refused when the invoice destination is not the channel's remote peer. In addition every fee/claim payment crossing of the world runs (C01 workload) must name the swap's channel. distinct = (backend, destination class, scid spelling, cltv class, limit, outcome)"
 	r.Assumptions = []string{"the real CLN/LND RPC calls (sendpay, SendPaymentV2) are not executed: what is checked is the route / request object the real builders hand to them", "CLN: 'to the channel's peer' is enforced by lightningd for a one-hop route over that channel"}
+	// which channel the real lnd client resolves the swap's channel id to (what OutgoingChanIds is filled from)
+	c24ChannelLookup(r, mrand.New(mrand.NewSource(r.Seed+2400)), r.N(3000, 100000))
 	rng := mrand.New(mrand.NewSource(r.Seed + 24))
 	peer := "02" + strings.Repeat("11", 32)
 	third := "03" + strings.Repeat("22", 32)
